@@ -69,7 +69,7 @@ def judgeCollapse (crit : Option Crit) (rr rt : Bool) (b : T) (outcome : String)
       tagIf (b.rooted && !a.rooted) "unrooted-by-op"
     let orc : Option String :=
       match crit with
-      | some c => if collapseOK c rt b a then none else some (collapseWhy c rt b a)
+      | some c => if collapseOKr c rt rr b a then none else some (collapseWhy c rt rr b a)
       | none => none
     match orc with
     | some why => ⟨.oracle, tags, why⟩
@@ -135,7 +135,7 @@ def handleOp (op : String) (f : List String) : Verdict :=
         -- oracle: with fresh sizes the property's post-condition; on an error nothing is removed
         if outcome == "err" && a.dump != b.dump then ⟨.oracle, tags, "error reported but the tree changed"⟩
         else if fresh && b.uniqueTips && outcome != "ok" then ⟨.oracle, tags, "fresh indexes but outcome " ++ outcome⟩
-        else if fresh && b.uniqueTips && !(collapseOK (.depth mn mx) rt b a) then ⟨.oracle, tags, collapseWhy (.depth mn mx) rt b a⟩
+        else if fresh && b.uniqueTips && !(collapseOKr (.depth mn mx) rt rr b a) then ⟨.oracle, tags, collapseWhy (.depth mn mx) rt rr b a⟩
         else match model, outcome with
           | none, "err" => ⟨.pass, "err" :: tags, ""⟩
           | some m, "ok" =>
@@ -143,6 +143,19 @@ def handleOp (op : String) (f : List String) : Verdict :=
             else ⟨.pass, tags ++ tagIf (m.dump == a.dump) "exact" ++ tagIf (nInner b > nInner a) "nontrivial", ""⟩
           | _, _ => ⟨.tie, tags, "model " ++ (if model.isSome then "ok" else "err") ++ ", outcome " ++ outcome⟩
     | _, _, _, _, _, _ => bad "C07.depthstale fields"
+  | "nonfinite", [kind, dump, outcome, after] =>
+    -- thresholds that are not numbers of the model (`-l inf`, `-l nan`, `-l -inf`, `-s nan`): every comparison with
+    -- +inf holds, none with nan / -inf does — judged as "a threshold above every value" / "below every value"
+    match T.undump dump with
+    | some b =>
+      let big : Rat := 1125899906842624
+      match kind with
+      | "l-inf" => judgeCollapse (some (.len big)) false false b outcome after (some (collapseLen big false false b)) ["nonfinite", kind]
+      | "l-nan" | "l-ninf" => judgeCollapse (some (.len (-2))) false false b outcome after (some (collapseLen (-2) false false b)) ["nonfinite", kind]
+      | "s-nan" => judgeCollapse (some (.sup (-2))) false false b outcome after (some (collapseSup (-2) false b)) ["nonfinite", kind]
+      | "s-inf" => judgeCollapse (some (.sup big)) false false b outcome after (some (collapseSup big false b)) ["nonfinite", kind]
+      | _ => bad "C07.nonfinite kind"
+    | none => bad "C07.nonfinite dump"
   | "remove", [rrs, rts, idss, dump, outcome, after] =>
     -- RemoveEdges with an arbitrary list of branches in an arbitrary order: the oracle is the
     -- collapse post-condition for the criterion "is in the list" expressed through ids, i.e.
@@ -263,9 +276,9 @@ def parseRecs (s : String) : Option (List Rec) :=
 def cmdPairOK (cmd : String) (fl : CmdFlags) (b a : T) : Bool :=
   if !b.uniqueTips || !(uniqueIds b) then true else
   match cmd with
-  | "length" => collapseOK (.len (fl.l.getD 0)) fl.tips b a
-  | "support" => collapseOK (.sup (fl.s.getD 0)) false b a
-  | "depth" => collapseOK (.depth (fl.mn.getD 0) (fl.mx.getD 0)) fl.tips b a
+  | "length" => collapseOKr (.len (fl.l.getD 0)) fl.tips fl.root b a
+  | "support" => collapseOKr (.sup (fl.s.getD 0)) false fl.root b a
+  | "depth" => collapseOKr (.depth (fl.mn.getD 0) (fl.mx.getD 0)) fl.tips fl.root b a
   | "resolve" => resolveOK b a
   | _ => false
 
